@@ -211,3 +211,68 @@ func c16race(c *ctx, idx int) {
 		s.Close()
 	}
 }
+
+// C16 exact-once, the window inside a single-user collection: `updateUsageQueueForOne` (run when a user is terminated)
+// has taken the valve's counters; before it adds them to the pending usage, a periodic upload commits and swaps the
+// queue.  Whatever the order inside, after one more collection and commit the stored credit must equal granted minus
+// carried.  The valve's Nullify is wrapped so that a whole commitUpdate runs right after the counters were taken
+// (in a goroutine with a 300 ms wait: code that holds the queue lock across the Nullify simply makes it wait).
+func c16gate(c *ctx, idx int) {
+	o, r := c.o, c.r
+	rig := newPanelRig(1000)
+	defer rig.close()
+	const init = int64(1) << 40
+	rig.putUser(1, 10, init, init, 1<<40)
+	rec, err := rig.panel.GetUser(uidBytes(1), false)
+	if err != nil {
+		return
+	}
+	armed := false
+	server.VerifWrapValve(rec, func(v mux.Valve) mux.Valve {
+		return &mux.VerifGateValve{Valve: v, After: func() {
+			if !armed {
+				return
+			}
+			armed = false
+			done := make(chan struct{})
+			go func() { rig.panel.CommitUpdate(); close(done) }()
+			select {
+			case <-done:
+			case <-time.After(300 * time.Millisecond):
+			}
+		}}
+	})
+	if _, _, _, err := server.VerifGetSession(rec, 1, c.freshKey()); err != nil {
+		return
+	}
+	v := server.VerifValve(rec)
+	var carried [2]int64
+	add := func() {
+		a, b := int64(1+r.intn(1000)), int64(1+r.intn(1000))
+		v.AddRx(a)
+		v.AddTx(b)
+		carried[0] += a
+		carried[1] += b
+	}
+	// something is already pending for the user, more traffic arrives, then the single-user collection with a commit inside
+	add()
+	rig.panel.UpdateUsageQueue()
+	add()
+	armed = true
+	rig.panel.UpdateUsageQueueForOne(rec)
+	armed = false
+	time.Sleep(350 * time.Millisecond) // a commit that had to wait for the queue lock finishes
+	add()
+	rig.panel.UpdateUsageQueue()
+	rig.panel.CommitUpdate()
+	up, down, _ := rig.credits(1)
+	caseC(o, fmt.Sprintf("gate-%d", idx), true)
+	if up != init-carried[0] || down != init-carried[1] {
+		o.V("C16 stored credit differs from granted minus carried at quiescence", map[string]any{"gate_script": idx,
+			"overlap": "commitUpdate runs between updateUsageQueueForOne taking the valve's counters and adding them to the pending usage",
+			"carried_up": carried[0], "charged_up": init - up, "carried_down": carried[1], "charged_down": init - down})
+	}
+	for _, s := range server.VerifSessions(rec) {
+		s.Close()
+	}
+}
